@@ -391,7 +391,8 @@ def main():
             refuted = confirmed = 0
             try:
                 with C.CleanRoom("props." + pid.lower()) as room:
-                    for f in unknown:
+                    # inputs that carry their own history are tried first
+                    for f in sorted(unknown, key=lambda f: 0 if f.get("carries_history") else 1):
                         if f.get("kind", "violation") != "violation" or refuted >= 40:
                             continue
                         if room.replay(f).get("fails"):
